@@ -17,6 +17,7 @@ CRATES = {
     'mdk-storage-traits': dict(dir='crates/mdk-storage-traits', features=None, extern='mdk_storage_traits'),
     'mdk-memory-storage': dict(dir='crates/mdk-memory-storage', features=None, extern='mdk_memory_storage'),
     'mdk-sqlite-storage': dict(dir='crates/mdk-sqlite-storage', features=None, extern='mdk_sqlite_storage'),
+    'mdk-uniffi': dict(dir='crates/mdk-uniffi', features=None, extern='mdk_uniffi'),
 }
 
 
